@@ -375,3 +375,117 @@ Proof.
   - inversion H1 as [|? ? Ho1 Hr1]; inversion H2 as [|? ? Ho2 Hr2]; subst.
     destruct (bb_step_refines s b o HR Ho1 Ho2) as [HR' _]. apply IH; auto.
 Qed.
+
+(* ---- batch reads agree with point reads ----
+   Both models answer a GetBatch item by item with what Get answers at the same state, and no read
+   operation changes the state: so within a stretch of reads every Get equals every batch item of
+   its key - also for rows written with a TTL, where the two models differ from each other. *)
+
+(* the answer of a plain point read at a state *)
+Definition spec_point (s : sstate) (pk cc : bytes) : option bytes := get (snd s) (fst s) pk cc.
+Definition bb_point (b : bb) (pk cc : bytes) : option bytes := option_map rval (bb_raw b pk (safe_key cc)).
+
+Lemma spec_read_keeps_state s o : is_read o = true -> fst (spec_step s o) = s.
+Proof. destruct s as [st now]. destruct o; cbn; intros H; try discriminate; reflexivity. Qed.
+
+Lemma bb_read_keeps_state b o : is_read o = true -> fst (bb_step b o) = b.
+Proof. destruct o; cbn; intros H; try discriminate; reflexivity. Qed.
+
+Lemma spec_get_point s pk cc : snd (spec_step s (OGet pk cc)) = RGet (spec_point s pk cc).
+Proof. destruct s; reflexivity. Qed.
+
+Lemma spec_batch_point s pk ccs : snd (spec_step s (OGetBatch pk ccs)) = RBatch (map (spec_point s pk) ccs).
+Proof. destruct s; reflexivity. Qed.
+
+Lemma bb_get_point b pk cc : snd (bb_step b (OGet pk cc)) = RGet (bb_point b pk cc).
+Proof. reflexivity. Qed.
+
+(* needs the repaired F4: GetBatch reports an empty value as found, like Get *)
+Lemma bb_batch_point b pk ccs : snd (bb_step b (OGetBatch pk ccs)) = RBatch (map (bb_point b pk) ccs).
+Proof.
+  cbn [bb_step snd]. rewrite flag_getbatch_any_value. reflexivity.
+Qed.
+
+Lemma obytes_eqb_refl v : obytes_eqb v v = true.
+Proof. unfold obytes_eqb, option_eqb. destruct v; [apply lex_eqb_refl|reflexivity]. Qed.
+
+Section BatchPoint.
+Context {S : Type} (step : S -> sop -> S * sout) (pt : S -> bytes -> bytes -> option bytes).
+Hypothesis Hread : forall s o, is_read o = true -> fst (step s o) = s.
+Hypothesis Hget : forall s pk cc, snd (step s (OGet pk cc)) = RGet (pt s pk cc).
+Hypothesis Hbatch : forall s pk ccs, snd (step s (OGetBatch pk ccs)) = RBatch (map (pt s pk) ccs).
+
+Fixpoint run_gen (s : S) (ops : list sop) : list sout :=
+  match ops with
+  | [] => []
+  | o :: r => snd (step s o) :: run_gen (fst (step s o)) r
+  end.
+
+(* everything remembered is what a point read answers at the current state *)
+Definition memo_inv (s : S) (m : memo) : Prop :=
+  Forall (fun e => snd e = pt s (fst (fst e)) (snd (fst e))) m.
+
+Lemma memo_inv_ok s m pk cc : memo_inv s m -> memo_ok m pk cc (pt s pk cc) = true.
+Proof.
+  intros H. unfold memo_ok. apply forallb_forall. intros e He.
+  unfold memo_inv in H. rewrite Forall_forall in H. specialize (H e He).
+  destruct (lex_eqb (fst (fst e)) pk) eqn:E1; [|reflexivity].
+  destruct (lex_eqb (snd (fst e)) cc) eqn:E2; [|reflexivity].
+  apply lex_eqb_eq in E1, E2. subst pk cc. rewrite H. cbn. apply obytes_eqb_refl.
+Qed.
+
+Lemma batch_items_inv s pk ccs : memo_inv s (batch_items pk ccs (map (pt s pk) ccs)).
+Proof. unfold memo_inv, batch_items. induction ccs as [|cc r IH]; cbn; constructor; auto. Qed.
+
+Lemma batch_items_ok s gets pk ccs : memo_inv s gets ->
+  forallb (fun e => memo_ok gets (fst (fst e)) (snd (fst e)) (snd e)) (batch_items pk ccs (map (pt s pk) ccs)) = true.
+Proof.
+  intros H. unfold batch_items. induction ccs as [|cc r IH]; cbn; [reflexivity|].
+  rewrite (memo_inv_ok s gets pk cc H). exact IH.
+Qed.
+
+Theorem batch_point_gen ops : forall s gets batch, memo_inv s gets -> memo_inv s batch ->
+  batch_point_from gets batch ops (run_gen s ops) = true.
+Proof.
+  induction ops as [|o ops IH]; intros s gets batch Hg Hb; cbn [run_gen batch_point_from]; [reflexivity|].
+  apply andb_true_intro; split.
+  - destruct o; try reflexivity.
+    + rewrite Hget. cbn. apply memo_inv_ok. exact Hb.
+    + rewrite Hbatch. cbn [bp_ok]. rewrite map_length, Nat.eqb_refl. cbn [andb]. apply batch_items_ok. exact Hg.
+  - destruct (is_read o) eqn:Er.
+    + rewrite (Hread s o Er). destruct o; try discriminate Er.
+      * rewrite Hget. cbn [bp_next fst snd]. apply IH; [constructor; [reflexivity|exact Hg]|exact Hb].
+      * rewrite Hbatch. cbn [bp_next fst snd]. apply IH; [exact Hg|].
+        unfold memo_inv. apply Forall_app. split; [apply batch_items_inv|exact Hb].
+      * cbn [bp_next is_read fst snd]. apply IH; assumption.
+      * cbn [bp_next is_read fst snd]. apply IH; assumption.
+      * cbn [bp_next is_read fst snd]. apply IH; assumption.
+      * cbn [bp_next is_read fst snd]. apply IH; assumption.
+    + destruct o; try discriminate Er; cbn [bp_next is_read fst snd]; apply IH; constructor.
+Qed.
+End BatchPoint.
+
+Lemma run_spec_gen ops : forall s, run_spec s ops = run_gen spec_step s ops.
+Proof.
+  induction ops as [|o ops IH]; intros s; cbn [run_spec run_gen]; [reflexivity|].
+  destruct (spec_step s o) as [s' out]. cbn [fst snd]. rewrite IH. reflexivity.
+Qed.
+
+Lemma run_bb_gen ops : forall b, run_bb b ops = run_gen bb_step b ops.
+Proof.
+  induction ops as [|o ops IH]; intros b; cbn [run_bb run_gen]; [reflexivity|].
+  destruct (bb_step b o) as [b' out]. cbn [fst snd]. rewrite IH. reflexivity.
+Qed.
+
+(* the clause holds of every history of either model, from every state *)
+Theorem spec_batch_point_proved s ops : batch_point ops (run_spec s ops) = true.
+Proof.
+  rewrite run_spec_gen. unfold batch_point.
+  apply (batch_point_gen spec_step spec_point spec_read_keeps_state spec_get_point spec_batch_point); constructor.
+Qed.
+
+Theorem bb_batch_point_proved b ops : batch_point ops (run_bb b ops) = true.
+Proof.
+  rewrite run_bb_gen. unfold batch_point.
+  apply (batch_point_gen bb_step bb_point bb_read_keeps_state bb_get_point bb_batch_point); constructor.
+Qed.
